@@ -11,6 +11,7 @@ import (
 	_ "verif/checks/c05"
 	_ "verif/checks/c11"
 	_ "verif/checks/c14"
+	_ "verif/checks/c15"
 )
 
 func main() {
